@@ -216,9 +216,17 @@ def valid_numbers(name, raw_fraction=4, **opts):
     if not p:
         raise core.HarnessError('no valid seed for %s on this tree' % name)
     m = core.number_modules()[name]
+    extra = extra_valid(name) if not opts else None
 
     @st.composite
     def s(draw):
+        if extra is not None and draw(st.integers(0, 3)) == 0:
+            # registry-walking / constructive generator (reaches registry branches the corpus does not contain)
+            o = core.out(m.validate, draw(extra))
+            if o[0] == 'ok' and isinstance(o[1], str) and o[1]:
+                stats['extra_valid_ok'] += 1
+                return o[1]
+            stats['extra_valid_rejected'] += 1
         v = draw(st.sampled_from(p))
         if draw(st.integers(0, raw_fraction - 1)) == 0:
             stats['pool_raw'] += 1
@@ -279,6 +287,89 @@ def extra_valid(name):
                 level = nxt[0].children if nxt else []
             return code
         return s()
+    if name in ('iban', 'mac', 'imsi', 'isbn'):
+        import os
+        import re as _re
+        from vf.refs import numdbref
+        fn = {'iban': 'iban', 'mac': 'oui', 'imsi': 'imsi', 'isbn': 'isbn'}[name]
+        roots, _ = numdbref.parse(open(os.path.join(core.REPO, 'stdnum', fn + '.dat'), encoding='utf-8').read())
+        roots = [e for e in roots if e.ranges]
+
+        def within(draw, lo, hi, alphabet):
+            """a value of the range's length between lo and hi (inclusive)."""
+            if lo == hi:
+                return lo
+            for _ in range(4):
+                v = ''.join(draw(st.sampled_from(alphabet)) for _ in lo)
+                if lo <= v <= hi:
+                    return v
+            return draw(st.sampled_from([lo, hi]))
+
+        def walk(draw, alphabet, stop_prob):
+            e = draw(st.sampled_from(roots))
+            out = ''
+            level = e
+            while True:
+                lo, hi = draw(st.sampled_from(level.ranges))
+                out += within(draw, lo, hi, alphabet)
+                kids = [k for k in level.children if k.ranges]
+                if not kids or draw(st.integers(0, 9)) < stop_prob:
+                    return out
+                level = draw(st.sampled_from(kids))
+
+        if name == 'iban':
+            @st.composite
+            def s(draw):
+                e = draw(st.sampled_from(roots))
+                cc = e.ranges[0][0]
+                body = ''
+                for n, k in _re.findall(r'([1-9][0-9]*)!([nac])', e.props.get('bban', '')):
+                    al = {'n': string.digits, 'a': string.ascii_uppercase, 'c': string.digits + string.ascii_uppercase}[k]
+                    body += draw(st.text(alphabet=al, min_size=int(n), max_size=int(n)))
+                if cc == 'BE':
+                    body = body[:10] + '%02d' % (int(body[:10]) % 97 or 97)
+                elif cc == 'ME':
+                    body = body[:16] + '%02d' % (98 - int(body[:16] + '00') % 97)
+                elif cc == 'NO':
+                    t = sum(w * int(d) for w, d in zip((5, 4, 3, 2, 7, 6, 5, 4, 3, 2), body[:10])) % 11
+                    c = (11 - t) % 11
+                    body = body[:10] + (str(c) if c < 10 else '0')
+                elif cc == 'ES':
+                    def cd(x):
+                        c = sum(int(n) * (2 ** i % 11) for i, n in enumerate(x)) % 11
+                        return str(c if c < 2 else 11 - c)
+                    body = body[:8] + cd('00' + body[:8]) + cd(body[10:]) + body[10:]
+                val = int(''.join(str(int(c, 36)) for c in body + cc + '00')) % 97
+                return cc + '%02d' % (98 - val) + body
+            return s()
+        if name == 'mac':
+            @st.composite
+            def s(draw):
+                p = walk(draw, '0123456789ABCDEF', 3)
+                p += draw(st.text(alphabet='0123456789ABCDEF', min_size=max(0, 12 - len(p)), max_size=max(0, 12 - len(p))))
+                p = p[:12]
+                sep = draw(st.sampled_from([':', '-', ':']))
+                return sep.join(p[i:i + 2] for i in range(0, 12, 2))
+            return s()
+        if name == 'imsi':
+            @st.composite
+            def s(draw):
+                p = walk(draw, string.digits, 1)
+                if len(p) == 3 and draw(st.booleans()):
+                    p += draw(st.text(alphabet=string.digits, min_size=2, max_size=3))  # possibly unknown MNC
+                n = draw(st.sampled_from([15, 15, 14]))
+                p += draw(st.text(alphabet=string.digits, min_size=max(0, n - len(p)), max_size=max(0, n - len(p))))
+                return p[:n]
+            return s()
+        if name == 'isbn':
+            @st.composite
+            def s(draw):
+                p = walk(draw, string.digits, 0)
+                p += draw(st.text(alphabet=string.digits, min_size=max(0, 12 - len(p)), max_size=max(0, 12 - len(p))))
+                p = p[:12]
+                t = sum((3 if i % 2 else 1) * int(c) for i, c in enumerate(p))
+                return p + str((10 - t) % 10)
+            return s()
     if name == 'isil':
         import os
         from vf.refs import numdbref
